@@ -2,6 +2,7 @@ package yqlib
 
 import (
 	"container/list"
+	"fmt"
 )
 
 /*
@@ -35,6 +36,9 @@ func collectObjectOperator(d *dataTreeNavigator, originalContext Context, _ *Exp
 	for el := context.MatchingNodes.Front(); el != nil; el = el.Next() {
 		candidateNode := el.Value.(*CandidateNode)
 
+		if len(candidateNode.Content) < len(first.Content) {
+			return Context{}, fmt.Errorf("cannot create an object from %v, every entry must be a key: value pair", candidateNode.Tag)
+		}
 		for i := 0; i < len(first.Content); i++ {
 			log.Debugf("rotate[%v] = %v", i, NodeToString(candidateNode.Content[i]))
 			log.Debugf("children:\n%v", NodeContentToString(candidateNode.Content[i], 0))
